@@ -234,8 +234,8 @@ def replay_file(payload):
 # ---------------------------------------------------------------------------
 # MASKED query for in-circuit commitments (part of C20, called from essa.c20)
 
-def commit_mask(prop, tier):
-    """returns (violations [(path, text)], inconclusive [str], coverage dict)"""
+def commit_mask(prop, tier, query="masked"):
+    """query 'masked' (C20, r1cs) or 'qcp-sound' (C02, scs). returns (violations [(path, text)], inconclusive [str], coverage dict)"""
     binp, bdt = build_exporter()
     sysf = os.path.join(OUT, "tmp", "%s_commit_systems.jsonl" % prop)
     resf = os.path.join(OUT, "tmp", "%s_commit_results.jsonl" % prop)
@@ -245,8 +245,27 @@ def commit_mask(prop, tier):
     if p.returncode != 0:
         return [], ["commit-mask encoder crashed: " + (p.stderr or p.stdout)[-400:]], {}
     results = [json.loads(l) for l in open(resf)]
+    results = [r for r in results if r["query"] == query]
     violations, inconclusive = [], []
     solver_s = 0.0
+    if query == "qcp-sound":
+        for r in results:
+            solver_s += r.get("time", 0)
+            if r["result"] in ("unsat", "skipped"):
+                continue
+            if r["result"] == "sat":
+                path = common.write_cex(prop, 900 + len(violations), dict(engine="ecs-mask", property=prop, prog=r["prog"], commitment=None, query=query, result=r))
+                violations.append((path, "qcp-sound %s/scs: with the BSB22 terms free on the rows the commitments list (Committed = %s) the gates admit inputs=%s outputs=%s that violate the meaning of an ordinary operation: the key's Qcp selects a row that is not a commitment row | re-decided by ./check --replay" % (
+                    r["prog"], r.get("committed"), r["cex"]["inputs"], r["cex"]["outputs"])))
+            else:
+                inconclusive.append("qcp-sound %s: %s %s" % (r["prog"], r["result"], r.get("note", "")))
+        if not [r for r in results if r["result"] == "unsat"]:
+            inconclusive.append("qcp-sound: no program decided")
+        cov = dict(qcp_sound=dict(
+            explanation="E-CS QCP-SOUND query: circuits mixing ordinary gates with 1..3 in-circuit commitments (constants among the committed arguments included) compiled by the real SCS builder over GF(47); the rows a commitment lists (where the key's Qcp_i is 1) and its commitment row get a free prover-chosen term; the gates must still force the meaning of the ordinary operations (unsat)",
+            programs=len({r["prog"] for r in results}), unsat=sum(1 for r in results if r["result"] == "unsat"), skipped=sum(1 for r in results if r["result"] == "skipped"),
+            sat=len(violations), solver_seconds=round(solver_s, 2), functions_encoded=["frontend/cs/scs builder.Commit (compiled systems)", "constraint.PlonkCommitments"]))
+        return violations, inconclusive, cov
     for n, r in enumerate(results):
         solver_s += r.get("time", 0)
         if r["result"] == "sat":
@@ -274,7 +293,16 @@ def replay_mask(payload):
     common.sh(["python3-vt", os.path.join(ENGINE, "commitmask.py"), "--systems", sysf, "--out", resf, "--timeout", "120"], env=dict(os.environ, VERIF_TMP=os.path.join(OUT, "tmp")))
     for l in open(resf):
         r = json.loads(l)
-        if r["prog"] == payload["prog"] and r.get("commitment") == payload["commitment"]:
+        if payload.get("query") == "qcp-sound":
+            if r["prog"] == payload["prog"] and r["query"] == "qcp-sound":
+                print(json.dumps(r))
+                if r["result"] == "sat":
+                    print("REPRODUCED: the system compiled from the current tree still admits a spec-violating assignment with free BSB22 terms")
+                    return EXIT_VIOLATION
+                print("not reproduced")
+                return EXIT_OK
+            continue
+        if r["query"] == "masked" and r["prog"] == payload["prog"] and r.get("commitment") == payload["commitment"]:
             print(json.dumps({k: v for k, v in r.items() if k != "witness"}))
             if r["result"] == "unsat":
                 print("REPRODUCED: the system compiled from the current tree still admits no masked pair for this commitment")
